@@ -81,7 +81,11 @@ fn walk(r: Ref<'_>, v: &Value) -> Option<String> {
 }
 
 fn deep_texts() -> Vec<String> {
-    vec![format!("{}a", "'".repeat(130)), format!("{}a", ",@".repeat(128)), format!("{}{}a{}", "(".repeat(100), "'".repeat(30), ")".repeat(100)),
+    // long streams of small items followed by nested ones (a budget or buffer leaking per item shows up after ~127 items in one API only)
+    let tail = format!(" {}x{} #(1 #(2 (3))) '(a 'b)", "(".repeat(60), ")".repeat(60));
+    vec![format!("{}{}", "() ".repeat(200), tail), format!("({}){}", "() [] ".repeat(150), tail), format!("{}{}", "#(() []) ".repeat(70), tail), format!("{}{}", "'a ".repeat(200), tail),
+         format!("{}{}", "#() ".repeat(200), tail), format!("{}{}", "(a . b) ".repeat(200), tail), format!("{}{}", "#u8() \"s\" ".repeat(150), tail), format!("{}{}", "(1 #z) ".repeat(3), tail),
+         format!("{}a", "'".repeat(130)), format!("{}a", ",@".repeat(128)), format!("{}{}a{}", "(".repeat(100), "'".repeat(30), ")".repeat(100)),
          format!("{}{}a{}", "#(".repeat(110), "`".repeat(20), ")".repeat(110)), format!("{}a", "'".repeat(120))]
 }
 fn check(case: &str) -> Option<String> {
